@@ -79,6 +79,10 @@ def safe_oracle(prop, c, ops, results, side):
     try:
         if any(r[0] == "clean" and r[2].get("layout") == "0" for r in results or []):
             return prop.skip("the summary Clean printed has a layout the harness cannot read: nothing is judged from it")
+        if not getattr(prop, "wants_dirs", False):
+            # (the directory listings printed at checkpoints are read by the oracles that ask for them; the others - some walk
+            # ops and results side by side - see the transcript without them)
+            results = [r for r in (results or []) if r[0] != "dirs"]
         return prop.oracle(c, ops, results)
     except Exception as e:                                   # noqa: BLE001
         return [{"msg": "the %s transcript could not be interpreted by the oracle (%s: %s)" % (side, type(e).__name__, e), "oracle_error": True}]
